@@ -118,14 +118,37 @@ def maildirCode (code : Nat) : Nat :=
   | some (c, _) => c
   | none => 0
 
-/-- success/failure of a file delivery in the generated homes: mbox files directly in the home succeed;
-a maildir succeeds iff it is a listed maildir (`m`); a plain directory lacks tmp/ (child exits 1);
-anything else cannot be entered (child exits 2) -/
+def splitLastSlash (p : Bytes) : Bytes × Bytes :=
+  let r := p.reverse
+  let b := (r.takeWhile (· != 47)).reverse
+  let d := (r.dropWhile (· != 47)).drop 1 |>.reverse
+  (d, b)
+
+/-- does the directory `d` (relative to the home, no trailing slash, "" = the home) exist in the generated home? -/
+def dirExists (fs : List FEnt) (d : Bytes) : Bool :=
+  d.isEmpty ||
+  (match findEnt fs d with
+   | some e => e.kind == 'd' || e.kind == 'm'
+   | none => false) ||
+  -- tmp/new/cur of a listed maildir
+  (let (dd, b) := splitLastSlash d
+   (b == str "tmp" || b == str "new" || b == str "cur") && (match findEnt fs dd with | some e => e.kind == 'm' | none => false)) ||
+  -- created as the parent of a listed entry
+  fs.any (fun e => (e.kind == 'f' || e.kind == 'd' || e.kind == 'm') && (d ++ [47]).isPrefixOf e.name)
+
+/-- success/failure of a file delivery in the generated homes (trusted glue: POSIX open/chdir semantics).
+mbox: `open(O_APPEND|O_CREAT)` succeeds iff the parent directory exists and the target is not a directory;
+maildir: succeeds iff it is a listed maildir (`m`); a plain directory lacks tmp/ (child exits 1); anything
+else cannot be entered (child exits 2) -/
 def dxOf (fs : List FEnt) : Instr → Option Why
   | .mbox f =>
-    let p := dropDotSlash (cstr f)
-    if p.contains 47 || p.isEmpty || (cstr f).head? == some 47 || (findEnt fs p).isSome then
-      some (.fileFail 111 (str "Unable to open " ++ cstr f ++ str ": "))
+    let fail : Option Why := some (.fileFail 111 (str "Unable to open " ++ cstr f ++ str ": "))
+    if (cstr f).head? == some 47 then fail else
+    let p := collapse (dropDotSlash (cstr f))
+    if p.isEmpty || p.getLast? == some 47 then fail else
+    let (d, _) := splitLastSlash p
+    if !dirExists fs d then fail
+    else if dirExists fs p && !p.isEmpty then fail
     else none
   | .maildir f =>
     let p := stripSlash (dropDotSlash (cstr f))
@@ -216,7 +239,7 @@ def sEffStr (dt msg : Bytes) : LocalSpec.Effect → String
   | .queue s rs => "Q" ++ hex s ++ ":" ++ hex (dt ++ msg) ++ String.join (rs.map (fun r => ":" ++ hex r))
 
 /-- returns the names of the violated clauses -/
-def oracle (c : Case) (exit : Int) (out : Bytes) (opens : String) (events : String) (env : List String) : List String := Id.run do
+def oracle (c : Case) (exit : Int) (out err : Bytes) (opens : String) (events : String) (env : List String) : List String := Id.run do
   let mut bad : List String := []
   let quiet := events == "-" && !(isInfix (str "mbox ") out || isInfix (str "maildir ") out || isInfix (str "program ") out || isInfix (str "forward ") out)
   -- hostile envelope bytes cannot add header lines
@@ -235,6 +258,9 @@ def oracle (c : Case) (exit : Int) (out : Bytes) (opens : String) (events : Stri
     return bad
   if c.doit && LocalSpec.loops c.loc c.host c.msg then
     if !(exit == 100 && quiet) then bad := "loop" :: bad
+    return bad
+  if isInfix (str "looping") err then
+    bad := "loop:spurious" :: bad     -- bounced as a loop although the header has no such line
     return bad
   let look := lookOf c.files
   let cands := LocalSpec.candidates c.dash c.ext
@@ -271,6 +297,15 @@ def oracle (c : Case) (exit : Int) (out : Bytes) (opens : String) (events : Stri
     let o2 := if needOwner && o1 == some true then owner ([45, 111, 119, 110, 101, 114, 45] ++ LocalSpec.dflt) else some false
     match o1, o2 with
     | some o1, some o2 =>
+      -- $DEFAULT as documented (only once the environment is complete: NEWSENDER set)
+      if (env[1]?).getD "!" != "!" then
+        let wantD : Option Bytes := match ctl with
+          | some (n, _) => LocalSpec.defaultVar c.dash c.ext n
+          | none => none
+        let gotD : Option Bytes := match env[0]? with
+          | some g => if g == "!" then none else unhex g
+          | none => none
+        if wantD != gotD then bad := "env:DEFAULT" :: bad
       let snd := LocalSpec.forwardSender c.loc c.host c.sender o1 o2
       let qcode : Nat := if c.qq == 1 then 100 else if c.qq == 2 then 111 else 0
       let e := LocalSpec.follow c.doit fo text snd run fileOK qcode
@@ -332,7 +367,7 @@ def handle (st : Stats) (line : String) : IO Stats := do
         IO.println s!"DISAGREE in={blob} doit={doitS} what={",".intercalate diffs.reverse |>.replace " " "_"} impl_exit={exitS} impl_out={outH} impl_err={errH} impl_opened={opens} impl_events={events} impl_env={envS}"
         st := { st with disagree := st.disagree + 1 }
       -- property oracle on the implementation's behaviour
-      let bad := oracle c exit out opens events envL
+      let bad := oracle c exit out err opens events envL
       if !bad.isEmpty then
         IO.println s!"ORACLE in={blob} doit={doitS} clause={",".intercalate bad.reverse |>.replace " " "_"} impl_exit={exitS} impl_out={outH} impl_opened={opens} impl_events={events}"
         st := { st with oracle := st.oracle + 1 }
